@@ -1488,10 +1488,23 @@ def run_impl_chunk(lines):
     return res, err[-1500:]
 
 
+ND_NP = re.compile(r'\(np (\S+) \((\d+) (\d+)')
+
+
+def physical_variant(line):
+    """the implementation sees every other case with its n-d NumpyArray nodes stored NON-contiguously (Fortran order:
+    `(npT ...)`, built by py_c04.py) -- strides are physical layout, not value: model, specification and the NumPy voter
+    keep reading the same `(np ...)` text.  Deterministic per case id."""
+    m = C.LINE_ID.match(line)
+    if not m or sum(map(ord, m.group(1))) % 2:
+        return line
+    return ND_NP.sub(lambda k: '(npT %s (%s %s' % (k.group(1), k.group(2), k.group(3)), line)
+
+
 def run_impl(cases, nproc=8):
     """all cases through py_c04.py (parallel batches); a case whose batch died is retried alone"""
     from concurrent.futures import ThreadPoolExecutor
-    lines = [c.line() for c in cases]
+    lines = [physical_variant(c.line()) for c in cases]
     size = max(1, (len(lines) + nproc - 1) // nproc)
     chunks = [lines[i:i + size] for i in range(0, len(lines), size)]
     res, errs = {}, {}
